@@ -59,29 +59,46 @@ def make(kind, radio):
     return RF24Mesh(spi, 0, ce, 0)
 
 
+# reading an attribute (many getters refresh a shadow from the radio) must not change what the object restores on re-entry
+GETTER_ATTRS = ("channel", "data_rate", "pa_level", "is_lna_enabled", "crc", "address_length", "arc", "ard", "auto_ack", "dynamic_payloads",
+                "payload_length", "ack", "allow_ask_no_ack", "power", "listen", "is_plus_variant", "tx_full", "pipe", "irq_dr", "last_tx_arc")
+GETTER_CALLS = {"get_" + a: ((lambda c, t: None), (lambda nrf, _a, _n=a: getattr(nrf, _n))) for a in GETTER_ATTRS}
+GETTER_CALLS.update({
+    "get_auto_ack_pipe": ((lambda c, t: c.int(t, 0, 5)), lambda nrf, a: nrf.get_auto_ack(a)),
+    "get_dynamic_payloads_pipe": ((lambda c, t: c.int(t, 0, 5)), lambda nrf, a: nrf.get_dynamic_payloads(a)),
+    "get_payload_length_pipe": ((lambda c, t: c.int(t, 0, 5)), lambda nrf, a: nrf.get_payload_length(a)),
+    "get_address": ((lambda c, t: c.int(t, -1, 5)), lambda nrf, a: nrf.address(a)),
+    "get_fifo": ((lambda c, t: None), lambda nrf, a: (nrf.fifo(True), nrf.fifo(False, True), nrf.any(), nrf.available())),
+    "scramble": ((lambda c, t: None), lambda nrf, a: scramble(SCR[0], nrf, "a")),
+})
+SCR = [None]
+
+
 def calls_of(kind):
     if kind == "rf24":
-        return {k: (v[0], v[1]) for k, v in CALLS.items()}
+        d = {k: (v[0], v[1]) for k, v in CALLS.items()}
+        d.update(GETTER_CALLS)
+        return d
     return BLE_CALLS if kind == "ble" else NET_CALLS
 
 
-def scramble(ctx, nrf):
+def scramble(ctx, nrf, tag="b"):
     """an RF24 B rewrites every configuration register, with symbolic values wherever that does not fork"""
-    nrf.channel = ctx.int("b_channel", 0, 125)
+    nrf.channel = ctx.int(tag + "_channel", 0, 125)
     nrf.data_rate = 250
     nrf.pa_level = -12
     nrf.crc = 1
     nrf.address_length = 3
-    nrf.set_auto_retries(250 + 250 * ctx.int("b_ard", 0, 15), ctx.int("b_arc", 0, 15))
-    nrf.auto_ack = (ctx.int("b_aa", 0, 31) << 1) | 1  # bit 0 fixed: the driver branches on it
-    nrf.dynamic_payloads = (ctx.int("b_dyn", 0, 31) << 1) | 1
-    nrf.payload_length = [ctx.int("b_pl%d" % i, 1, 32) for i in range(6)]
+    nrf.set_auto_retries(250 + 250 * ctx.int(tag + "_ard", 0, 15), ctx.int(tag + "_arc", 0, 15))
+    nrf.auto_ack = (ctx.int(tag + "_aa", 0, 31) << 1) | 1  # bit 0 fixed: the driver branches on it
+    nrf.dynamic_payloads = (ctx.int(tag + "_dyn", 0, 31) << 1) | 1
+    nrf.payload_length = [ctx.int(tag + "_pl%d" % i, 1, 32) for i in range(6)]
     nrf.allow_ask_no_ack = False
     nrf.interrupt_config(False, True, False)
     for p in range(6):
-        nrf.open_rx_pipe(p, ctx.bytes("b_rx%d" % p, 5 if p < 2 else 1))
+        nrf.open_rx_pipe(p, ctx.bytes(tag + "_rx%d" % p, 5 if p < 2 else 1))
     nrf.close_rx_pipe(3)
-    nrf.open_tx_pipe(ctx.bytes("b_tx", 5))
+    nrf.open_tx_pipe(ctx.bytes(tag + "_tx", 5))
 
 
 def snap(radio):
@@ -105,6 +122,7 @@ def h_blocks(ctx, kind_a, kind_b, calls_a, call_b, kind_c=None):
         return ctx.bytes("urandom%d" % len(rnd), n) if not rnd.append(1) else None
     rnd = []
     clock = fresh_env(ctx, urandom=urandom)
+    SCR[0] = ctx
     radio = SimRadio(clock)
     a = make(kind_a, radio)
     last_a = snap(radio)
@@ -184,6 +202,13 @@ def jobs(tier):
         seqs += [(x, y, z) for x in g for y in g for z in g]
     for s in seqs:
         out.append(Job("two-objects", h_blocks, dict(kind_a="rf24", kind_b="rf24", calls_a=list(s), call_b="scramble"), cost=3))
+    # A gives every register a non-default (symbolic) value, then merely READS one attribute as its last action
+    for g in GETTER_CALLS:
+        if g != "scramble":
+            out.append(Job("two-objects-getter-last", h_blocks, dict(kind_a="rf24", kind_b="rf24", calls_a=["scramble", g], call_b="scramble"), cost=4))
+            if tier == "thorough":
+                out.append(Job("two-objects-getter-last", h_blocks, dict(kind_a="rf24", kind_b="ble", calls_a=["pa_level_tuple", "data_rate", g],
+                                                                         call_b="channel"), cost=4))
     for s in [(n,) for n in rf][:: (1 if tier == "thorough" else 3)] + trip[:3]:
         for kb in ("ble", "net", "mesh"):
             out.append(Job("two-objects", h_blocks, dict(kind_a="rf24", kind_b=kb, calls_a=list(s), call_b="channel"), cost=3))
